@@ -123,7 +123,12 @@ func loadMode() packages.LoadMode {
 
 // LoadDirs loads the packages matching patterns relative to dir, sharing fset.
 func LoadDirs(fset *token.FileSet, dir, stream string, patterns []string) ([]*Pkg, error) {
-	cfg := &packages.Config{Mode: loadMode(), Fset: fset, Dir: dir, Env: common.GoEnv()}
+	return LoadOverlay(fset, dir, stream, patterns, nil)
+}
+
+// LoadOverlay is LoadDirs with some files replaced by in-memory contents (absolute path -> source).
+func LoadOverlay(fset *token.FileSet, dir, stream string, patterns []string, overlay map[string][]byte) ([]*Pkg, error) {
+	cfg := &packages.Config{Mode: loadMode(), Fset: fset, Dir: dir, Env: common.GoEnv(), Overlay: overlay}
 	pkgs, err := packages.Load(cfg, patterns...)
 	if err != nil {
 		return nil, err
@@ -144,7 +149,10 @@ func LoadDirs(fset *token.FileSet, dir, stream string, patterns []string) ([]*Pk
 				continue
 			}
 			path := tf.Name()
-			src, _ := os.ReadFile(path)
+			src, ok := overlay[path]
+			if !ok {
+				src, _ = os.ReadFile(path)
+			}
 			StripDirectives(f)
 			pk.Files = append(pk.Files, &File{Pkg: pk, Name: filepath.Base(path), Path: path, AST: f, Src: src, Base: tf.Base(), Size: tf.Size()})
 			pk.Dir = filepath.Dir(path)
@@ -157,7 +165,10 @@ func LoadDirs(fset *token.FileSet, dir, stream string, patterns []string) ([]*Pk
 }
 
 // LoadS1 loads every example package of the repository (checkers/testdata/<name>).
-func LoadS1(fset *token.FileSet) ([]*Pkg, error) {
+func LoadS1(fset *token.FileSet) ([]*Pkg, error) { return LoadS1Overlay(fset, nil) }
+
+// LoadS1Overlay loads the example packages with some files replaced (transformed examples of C13).
+func LoadS1Overlay(fset *token.FileSet, overlay map[string][]byte) ([]*Pkg, error) {
 	// "testdata" directories are invisible to "..." patterns: name every directory.
 	ents, err := os.ReadDir(filepath.Join(common.RepoDir, "checkers", "testdata"))
 	if err != nil {
@@ -173,7 +184,7 @@ func LoadS1(fset *token.FileSet) ([]*Pkg, error) {
 		}
 		pats = append(pats, "./checkers/testdata/"+e.Name())
 	}
-	return LoadDirs(fset, common.RepoDir, "S1", pats)
+	return LoadOverlay(fset, common.RepoDir, "S1", pats, overlay)
 }
 
 // StressDir is where the hand-written stress packages live.
@@ -472,4 +483,71 @@ func FreshUnstable(info *linter.CheckerInfo, f *File, got, want Outcome) (unstab
 		explains = true
 	}
 	return unstable, explains
+}
+
+// Batches splits example packages into groups that the CLI can load together. The third-party loader
+// (go-toolsmith/pkgload.VisitUnits) keys a package whose *name* ends in "_test" by its import path minus
+// five characters and panics ("nil assertion failed") when two such keys collide; all S1 packages are named
+// checker_test, so e.g. badCond and badLock cannot be passed to one go-critic process. (Observation only:
+// it is a defect of the loader triggered by the unusual package naming of the examples.)
+func Batches(pkgs []*Pkg) [][]*Pkg {
+	var batches [][]*Pkg
+	var keys []map[string]bool
+	for _, p := range pkgs {
+		k := p.Name
+		if len(k) > 5 {
+			k = k[:len(k)-5]
+		}
+		placed := false
+		for i := range batches {
+			if !keys[i][k] {
+				keys[i][k] = true
+				batches[i] = append(batches[i], p)
+				placed = true
+				break
+			}
+		}
+		if !placed {
+			batches = append(batches, []*Pkg{p})
+			keys = append(keys, map[string]bool{k: true})
+		}
+	}
+	return batches
+}
+
+// ForEachPkg runs fn(set, pkg) for every package on a pool of workers; each worker owns ONE long-lived
+// checker set (creating a set costs one rule-engine load per embedded rule group).
+func ForEachPkg(fset *token.FileSet, infos []*linter.CheckerInfo, pkgs []*Pkg, fn func(set *Set, pi int)) error {
+	workers := runtime.GOMAXPROCS(0)
+	if workers > len(pkgs) {
+		workers = len(pkgs)
+	}
+	ch := make(chan int, len(pkgs))
+	for i := range pkgs {
+		ch <- i
+	}
+	close(ch)
+	var wg sync.WaitGroup
+	var mu sync.Mutex
+	var firstErr error
+	for w := 0; w < workers; w++ {
+		wg.Add(1)
+		go func() {
+			defer wg.Done()
+			set, err := NewSet(fset, infos)
+			if err != nil {
+				mu.Lock()
+				if firstErr == nil {
+					firstErr = err
+				}
+				mu.Unlock()
+				return
+			}
+			for pi := range ch {
+				fn(set, pi)
+			}
+		}()
+	}
+	wg.Wait()
+	return firstErr
 }
